@@ -1,5 +1,6 @@
 """C06 - Well-formed deb822 documents parse to exactly their paragraphs and fields."""
 import os
+import itertools
 from protocol import Exc
 from debian_inspector import deb822, debcon
 
@@ -32,7 +33,7 @@ LEVEL_TEXT = ('Props.C06H.sound_narrow: for every well-formed deb822 document - 
 LEVEL_NOTE = ('Trusted: Lean kernel; axioms propext, Classical.choice, Quot.sound only; stdlib email parsing modelled; file I/O exercised; K3 is a known finding (names outside [A-Za-z][A-Za-z0-9-]* are junk for the line-tracking parser).')
 
 WORK = os.path.join(os.path.dirname(os.path.dirname(os.path.dirname(os.path.abspath(__file__)))), 'work')
-NAMES = ['Package', 'Version', 'Depends', 'X-Foo', 'a', 'B2', 'Build-Depends-Indep', 'x-', 'From', 'Description', 'homepage', 'SHA256', 'Files', 'License', 'Maintainer', 'q9-9']
+NAMES = ['Package', 'Version', 'Depends', 'X-Foo', 'a', 'B2', 'Build-Depends-Indep', 'x-', 'From', 'Description', 'homepage', 'SHA256', 'Files', 'License', 'Maintainer', 'q9-9', 'X-Licence', 'Licence-Text', 'Sublicence', 'Licences']
 ODD_NAMES = ['X_Foo', '2a', 'a.b', 'x+y', 'Foo!', '~t']
 VALUES = ['foo', '1.0-1', 'a: b', 'http://x:80/y?z', '.dot', 'From me', 'é ü 日本', 'x  y', '', '', '(>= 1.0), b | c', ':', 'a:b:c', '"quoted"', '-', 'p\x0cq']
 CONTS = [' cont', '\tcont', '  two  spaces', ' .', ' ..', ' ---', ' a: b', ' From x', '\t \t.', ' é', ' (', ' "']
@@ -145,13 +146,33 @@ def extra(tier, rng):
     path = os.path.join(WORK, 'c06-%d.txt' % os.getpid())
     fails = []
     done = 0
+    def big_cases():
+        """files longer than any read-ahead or detection window, with a multi-byte character across each power-of-two byte offset"""
+        for B in (1024, 4096, 8192, 16384, 65536) + ((32768, 131072, 1 << 20) if tier != 'quick' else ()):
+            for ch in ('\u00e9', '\u65e5', '\U0001f600'):
+                head = 'Package: foo\nMaintainer: '
+                for k in range(B - len(head) - 3, B - len(head)):      # the character starts 1-3 bytes before offset B
+                    one = [[[['Package', 'foo', [], ' '], ['Maintainer', 'x' * k + ch + ' tail', [], ' ']], ['']], [[['Source', 'bar ' + ch, [], ' ']], []]]
+                    yield [one, True, render(one, True)]
+                    # the same offset reached through many continuation lines of 100 bytes
+                    n, r = divmod(k, 100)
+                    if n >= 1 and r >= 1:
+                        many = [[[['Package', 'foo', [], ' '], ['Maintainer', 'x' * (r - 1), [' ' + 'y' * 98] * (n - 1) + [' ' + 'y' * 98 + ch + ' tail'], ' ']], ['']],
+                                [[['Source', 'bar ' + ch, [], ' ']], []]]
+                        yield [many, True, render(many, True)]
     try:
-        for _ in range(200 if tier == 'quick' else 3000):
-            paras, fin, text = case(rng)
+        small = (case(rng) for _ in range(200 if tier == 'quick' else 3000))
+        for paras, fin, text in itertools.chain(big_cases(), small):
             with open(path, 'w', encoding='utf-8', newline='') as f:
                 f.write(text)
-            a = [[[fl.name, [l.value for l in fl.lines]] for fl in g] for g in deb822.get_paragraphs_as_field_groups_from_file(path)]
-            b = [[[k, v] for k, v in d.items()] for d in debcon.get_paragraphs_data_from_file(path)]
+            try:
+                a = [[[fl.name, [l.value for l in fl.lines]] for fl in g] for g in deb822.get_paragraphs_as_field_groups_from_file(path)]
+            except Exception as e:
+                a = Exc(type(e).__name__)
+            try:
+                b = [[[k, v] for k, v in d.items()] for d in debcon.get_paragraphs_data_from_file(path)]
+            except Exception as e:
+                b = Exc(type(e).__name__)
             done += 1
             if a != groups(text) or b != dicts(text):
                 fails.append({'op': 'C06', 'input': [paras, fin, text], 'what': 'reading the document from a UTF-8 file differs from passing it as text'})
